@@ -3,111 +3,188 @@ import MJ.Proofs.LexerScan
 the tag's own delimiter; `find_start_marker_memchr` is `findLL` for the default delimiters. -/
 namespace MJ.Lexer
 
-theorem candidates_good {d : Delims} (g : Good d) (pre s : List Char) :
-    candidates d pre s =
-      (if startsWith d.vs s then [(Marker.var, d.vs.length)] else []) ++
-      (if startsWith d.bs s then [(Marker.block, d.bs.length)] else []) ++
-      (if startsWith d.cs s then [(Marker.comment, d.cs.length)] else []) := by
-  simp [candidates, g.ls, g.lc]
+/-! ### `longest` -/
 
-theorem anyStart_good {d : Delims} (g : Good d) (s : List Char) :
-    anyStart d s = (startsWith d.vs s || startsWith d.bs s || startsWith d.cs s) := by
-  simp [anyStart, g.ls, g.lc]
+theorem longest_none_iff (l : List (Marker × Nat)) : longest l = none ↔ l = [] := by
+  cases l with
+  | nil => simp [longest]
+  | cons x xs =>
+    simp only [longest]
+    cases longest xs with
+    | none => simp
+    | some y => simp only []; split <;> simp
 
-theorem matchAt_none {d : Delims} (g : Good d) (pre s : List Char) (h : anyStart d s = false) :
+theorem longest_mem {l : List (Marker × Nat)} {x : Marker × Nat} (h : longest l = some x) :
+    x ∈ l ∧ ∀ y ∈ l, y.2 ≤ x.2 := by
+  induction l generalizing x with
+  | nil => simp [longest] at h
+  | cons a l ih =>
+    simp only [longest] at h
+    cases hl : longest l with
+    | none =>
+      rw [hl] at h
+      have : l = [] := (longest_none_iff l).1 hl
+      subst this
+      cases h
+      simp
+    | some y =>
+      rw [hl] at h
+      obtain ⟨hy, hmax⟩ := ih hl
+      simp only [] at h
+      split at h
+      · cases h
+        refine ⟨by simp [hy], ?_⟩
+        intro z hz
+        rcases List.mem_cons.1 hz with rfl | hz
+        · omega
+        · exact hmax z hz
+      · cases h
+        refine ⟨by simp, ?_⟩
+        intro z hz
+        rcases List.mem_cons.1 hz with rfl | hz
+        · exact Nat.le_refl _
+        · have := hmax z hz; omega
+
+/-! ### the spec-side pattern list -/
+
+/-- a start delimiter counts at this position -/
+def patOk (pre s : List Char) (mp : Marker × List Char) : Bool :=
+  startsWith mp.2 s && (mp.1 != .lineStmt || lineStartP pre)
+
+theorem mem_candidates {d : Delims} {pre s : List Char} {m : Marker} {n : Nat} :
+    (m, n) ∈ candidates d pre s ↔ ∃ p, (m, p) ∈ startPats d ∧ patOk pre s (m, p) = true ∧ n = p.length := by
+  unfold candidates startPats patOk
+  constructor
+  · intro h
+    simp only [List.mem_append] at h
+    rcases h with (((h | h) | h) | h) | h
+    · split at h <;> simp at h; exact ⟨d.vs, by simp [h.1], by simp_all, h.2⟩
+    · split at h <;> simp at h; exact ⟨d.bs, by simp [h.1], by simp_all, h.2⟩
+    · split at h <;> simp at h; exact ⟨d.cs, by simp [h.1], by simp_all, h.2⟩
+    · split at h <;> simp at h
+      rename_i hc
+      simp only [Bool.and_eq_true, Bool.not_eq_true', List.isEmpty_eq_false_iff] at hc
+      refine ⟨d.ls, ?_, by simp [h.1, hc.1.2, hc.2], h.2⟩
+      have : d.ls.isEmpty = false := by simpa using hc.1.1
+      simp [h.1, this]
+    · split at h <;> simp at h
+      rename_i hc
+      simp only [Bool.and_eq_true, Bool.not_eq_true', List.isEmpty_eq_false_iff] at hc
+      refine ⟨d.lc, ?_, by simp [h.1, hc.2], h.2⟩
+      have : d.lc.isEmpty = false := by simpa using hc.1
+      simp [h.1, this]
+  · rintro ⟨p, hp, hok, rfl⟩
+    simp only [List.mem_append, List.mem_cons, Prod.mk.injEq, List.not_mem_nil, or_false] at hp
+    simp only [Bool.and_eq_true, Bool.or_eq_true, bne_iff_ne, ne_eq] at hok
+    simp only [List.mem_append]
+    rcases hp with ((⟨rfl, rfl⟩ | ⟨rfl, rfl⟩ | ⟨rfl, rfl⟩) | hp) | hp
+    · left; left; left; left; simp [hok.1]
+    · left; left; left; right; simp [hok.1]
+    · left; left; right; simp [hok.1]
+    · left; right
+      split at hp <;> simp at hp
+      rename_i he
+      obtain ⟨rfl, rfl⟩ := hp
+      have hl : lineStartP pre = true := by simpa using hok.2
+      simp [he, hok.1, hl]
+    · right
+      split at hp <;> simp at hp
+      rename_i he
+      obtain ⟨rfl, rfl⟩ := hp
+      simp [he, hok.1]
+
+
+/-! ### `matchAt` on delimiter-free text and at a tag -/
+
+theorem matchAt_none {d : Delims} (pre s : List Char) (h : anyStart d s = false) :
     matchAt d pre s = none := by
-  rw [anyStart_good g] at h
-  simp only [Bool.or_eq_false_iff] at h
-  simp [matchAt, candidates_good g, h.1.1, h.1.2, h.2, longest]
-
-theorem longest_one (x : Marker × Nat) : longest [x] = some x := by simp [longest]
-
-theorem longest_two (x y : Marker × Nat) : longest [x, y] = if y.2 > x.2 then some y else some x := by
-  simp [longest]
-
-theorem longest_three (x y z : Marker × Nat) :
-    longest [x, y, z] =
-      if (if z.2 > y.2 then z else y).2 > x.2 then some (if z.2 > y.2 then z else y) else some x := by
-  have h : longest [y, z] = some (if z.2 > y.2 then z else y) := by
-    rw [longest_two]; split <;> rfl
-  show (match longest [y, z] with | none => some x | some w => if w.2 > x.2 then some w else some x) = _
-  rw [h]
-
-/-- the tag's own start delimiter and its marker -/
-inductive Own (d : Delims) : List Char → Marker → Prop where
-  | var : Own d d.vs .var
-  | block : Own d d.bs .block
-  | comment : Own d d.cs .comment
-
-theorem matchAt_own {d : Delims} (g : Good d) (pre s own : List Char) (marker : Marker)
-    (ho : Own d own marker) (hsw : startsWith own s = true) (hl : ownLongest d own s = true) :
-    matchAt d pre s = some (marker, own.length) := by
-  simp only [ownLongest, g.ls, g.lc, List.isEmpty_nil, Bool.true_or, Bool.and_true, Bool.and_eq_true,
-    Bool.or_eq_true, Bool.not_eq_true', decide_eq_true_eq] at hl
-  obtain ⟨⟨hv, hb⟩, hc⟩ := hl
-  have lt_of {p : List Char} (hp : startsWith p s = true) (hne : p ≠ own) (hle : p.length ≤ own.length) :
-      p.length < own.length := by
-    rcases Nat.lt_or_ge p.length own.length with h | h
-    · exact h
-    · exact absurd (startsWith_eq_of_length_eq hp hsw (by omega)) hne
   unfold matchAt
-  rw [candidates_good g]
-  cases ho with
-  | var =>
-    rw [hsw]
-    cases h1 : startsWith d.bs s <;> cases h2 : startsWith d.cs s
-    · simp [longest_one]
-    · have := lt_of h2 (Ne.symm g.vc) (hc.resolve_left (by simp [h2]))
-      simp [longest_two]; omega
-    · have := lt_of h1 (Ne.symm g.vb) (hb.resolve_left (by simp [h1]))
-      simp [longest_two]; omega
-    · have a1 := lt_of h1 (Ne.symm g.vb) (hb.resolve_left (by simp [h1]))
-      have a2 := lt_of h2 (Ne.symm g.vc) (hc.resolve_left (by simp [h2]))
-      simp only [if_true, List.cons_append, List.nil_append, longest_three]
-      (repeat' split) <;> first | rfl | (simp_all <;> omega)
-  | block =>
-    rw [hsw]
-    cases h1 : startsWith d.vs s <;> cases h2 : startsWith d.cs s
-    · simp [longest_one]
-    · have := lt_of h2 (Ne.symm g.bc) (hc.resolve_left (by simp [h2]))
-      simp [longest_two]; omega
-    · have := lt_of h1 g.vb (hv.resolve_left (by simp [h1]))
-      simp [longest_two]; omega
-    · have a1 := lt_of h1 g.vb (hv.resolve_left (by simp [h1]))
-      have a2 := lt_of h2 (Ne.symm g.bc) (hc.resolve_left (by simp [h2]))
-      simp only [if_true, List.cons_append, List.nil_append, longest_three]
-      (repeat' split) <;> first | rfl | (simp_all <;> omega)
-  | comment =>
-    rw [hsw]
-    cases h1 : startsWith d.vs s <;> cases h2 : startsWith d.bs s
-    · simp [longest_one]
-    · have := lt_of h2 g.bc (hb.resolve_left (by simp [h2]))
-      simp [longest_two]; omega
-    · have := lt_of h1 g.vc (hv.resolve_left (by simp [h1]))
-      simp [longest_two]; omega
-    · have a1 := lt_of h1 g.vc (hv.resolve_left (by simp [h1]))
-      have a2 := lt_of h2 g.bc (hb.resolve_left (by simp [h2]))
-      simp only [if_true, List.cons_append, List.nil_append, longest_three]
-      (repeat' split) <;> first | rfl | (simp_all <;> omega)
+  rw [longest_none_iff]
+  apply List.eq_nil_iff_forall_not_mem.2
+  rintro ⟨m, n⟩ hmem
+  obtain ⟨p, hp, hok, _⟩ := mem_candidates.1 hmem
+  simp only [anyStart, List.any_eq_false] at h
+  have := h (m, p) hp
+  simp only [patOk, Bool.and_eq_true] at hok
+  simp [hok.1] at this
 
-theorem own_cons {d : Delims} (g : Good d) {own : List Char} {marker : Marker} (ho : Own d own marker) :
-    ∃ c r, own = c :: r ∧ isWs c = false := by
-  cases ho
-  · exact startOk_cons g.vs
-  · exact startOk_cons g.bs
-  · exact startOk_cons g.cs
+theorem longest_unique {l : List (Marker × Nat)} {x : Marker × Nat} (hx : x ∈ l)
+    (hmax : ∀ y ∈ l, y = x ∨ y.2 < x.2) : longest l = some x := by
+  induction l with
+  | nil => simp at hx
+  | cons a l ih =>
+    simp only [longest]
+    cases hl : longest l with
+    | none =>
+      have : l = [] := (longest_none_iff l).1 hl
+      subst this
+      simp only [List.mem_singleton] at hx
+      simp [hx]
+    | some y =>
+      obtain ⟨hy, _⟩ := longest_mem hl
+      simp only []
+      rcases List.mem_cons.1 hx with rfl | hx'
+      · rcases hmax y (by simp [hy]) with rfl | hlt
+        · simp
+        · rw [if_neg (by omega)]
+      · have := ih hx' (fun z hz => hmax z (by simp [hz]))
+        rw [hl] at this
+        cases this
+        rcases hmax a (by simp) with rfl | hlt
+        · simp
+        · rw [if_pos (by omega)]
+
+theorem snd_inj_of_nodup {l : List (Marker × List Char)} (h : (l.map (·.2)).Nodup) {m m' : Marker} {p : List Char}
+    (h1 : (m, p) ∈ l) (h2 : (m', p) ∈ l) : m = m' := by
+  induction l with
+  | nil => simp at h1
+  | cons a l ih =>
+    simp only [List.map_cons, List.nodup_cons, List.mem_map, not_exists, not_and] at h
+    rcases List.mem_cons.1 h1 with rfl | h1'
+    · rcases List.mem_cons.1 h2 with h2' | h2'
+      · cases h2'; rfl
+      · exact absurd rfl (h.1 (m', p) h2')
+    · rcases List.mem_cons.1 h2 with rfl | h2'
+      · exact absurd rfl (h.1 (m, p) h1')
+      · exact ih h.2 h1' h2'
+
+/-- at a tag start the tag's own delimiter wins -/
+theorem matchAt_own {d : Delims} (g : Good d) (pre s own : List Char) (marker : Marker)
+    (ho : (marker, own) ∈ startPats d) (hok : patOk pre s (marker, own) = true)
+    (hl : ownLongest d own s = true) :
+    matchAt d pre s = some (marker, own.length) := by
+  unfold matchAt
+  apply longest_unique (mem_candidates.2 ⟨own, ho, hok, rfl⟩)
+  rintro ⟨m', n'⟩ hmem
+  obtain ⟨p', hp', hok', rfl⟩ := mem_candidates.1 hmem
+  simp only [ownLongest, List.all_eq_true] at hl
+  have := hl (m', p') hp'
+  simp only [patOk, Bool.and_eq_true] at hok'
+  simp only [hok'.1, Bool.not_true, Bool.false_or, Bool.or_eq_true, beq_iff_eq, decide_eq_true_eq] at this
+  rcases this with rfl | hlt
+  · left
+    rw [snd_inj_of_nodup g.nodup hp' ho]
+  · right; exact hlt
+
+theorem own_cons {d : Delims} (g : Good d) {own : List Char} {marker : Marker} (ho : (marker, own) ∈ startPats d) :
+    ∃ c r, own = c :: r ∧ isWs c = false :=
+  startOk_cons (g.starts (marker, own) ho)
 
 theorem shift_some (i : Nat) (m : Marker) (n : Nat) : shift (some (i, m, n)) = some (i + 1, m, n) := rfl
 
 /-- on delimiter-free text followed by a tag the search stops at the tag, with the tag's own
     delimiter -/
-theorem findLL_text_tag {d : Delims} (g : Good d) (own : List Char) (marker : Marker) (ho : Own d own marker)
-    (t f : List Char) (pre : List Char) (hfree : noStartIn d t f = true)
-    (hsw : startsWith own f = true) (hl : ownLongest d own f = true) :
+theorem findLL_text_tag {d : Delims} (g : Good d) (own : List Char) (marker : Marker)
+    (ho : (marker, own) ∈ startPats d) (t f : List Char) (pre : List Char) (hfree : noStartIn d t f = true)
+    (hsw : startsWith own f = true) (hl : ownLongest d own f = true)
+    (hline : marker ≠ .lineStmt ∨ lineStartP (t.reverse ++ pre) = true) :
     findLL d pre (t ++ f) = some (t.length, marker, own.length) := by
   induction t generalizing pre with
   | nil =>
-    have hm := matchAt_own g pre f own marker ho hsw hl
+    have hok : patOk pre f (marker, own) = true := by
+      simp only [patOk, hsw, Bool.true_and, Bool.or_eq_true, bne_iff_ne, ne_eq]
+      simpa using hline
+    have hm := matchAt_own g pre f own marker ho hok hl
     cases f with
     | nil =>
       obtain ⟨c, r, h, _⟩ := own_cons g ho
@@ -116,16 +193,18 @@ theorem findLL_text_tag {d : Delims} (g : Good d) (own : List Char) (marker : Ma
     | cons c r => simp [findLL, hm]
   | cons a t ih =>
     simp only [noStartIn, Bool.and_eq_true, Bool.not_eq_true'] at hfree
-    have hm := matchAt_none g pre (a :: (t ++ f)) hfree.1
-    simp only [List.cons_append, findLL, hm, ih (a :: pre) hfree.2, shift_some, List.length_cons]
+    have hm := matchAt_none pre (a :: (t ++ f)) hfree.1
+    have hline' : marker ≠ .lineStmt ∨ lineStartP (t.reverse ++ (a :: pre)) = true := by
+      simpa [List.append_assoc] using hline
+    simp only [List.cons_append, findLL, hm, ih (a :: pre) hfree.2 hline', shift_some, List.length_cons]
 
-theorem findLL_none {d : Delims} (g : Good d) (t pre : List Char) (hfree : noStartIn d t [] = true) :
+theorem findLL_none {d : Delims} (t pre : List Char) (hfree : noStartIn d t [] = true) :
     findLL d pre t = none := by
   induction t generalizing pre with
   | nil => rfl
   | cons a t ih =>
     simp only [noStartIn, Bool.and_eq_true, Bool.not_eq_true', List.append_nil] at hfree
-    simp [findLL, matchAt_none g pre (a :: t) hfree.1, ih (a :: pre) hfree.2, shift]
+    simp [findLL, matchAt_none pre (a :: t) hfree.1, ih (a :: pre) hfree.2, shift]
 
 /-- a suffix of delimiter-free text is delimiter-free -/
 theorem noStartIn_drop {d : Delims} (t f : List Char) (k : Nat) (h : noStartIn d t f = true) :
